@@ -27,7 +27,8 @@ func init() {
 			"R5b the client reads an error body up to a constant limit; R8 a response returned by the auth transport has not had its Body closed by it. " +
 			"R2 covers multi-valued case arms of the HEAD fallback; R6c the prefix built by the shared helper is used as built (nothing trims or re-slices it between the helper and the separator). " +
 			"R5c the too-large test on an error body is the complement of \"fewer bytes than the reader's limit were read\" (len(data) > R-1 or >= R for io.LimitReader(body, R)). " +
-			"R9 on the way to the status line an error is never type-asserted to a module error interface (errors.As finds a wrapped HTTPError, an assertion only a bare one).",
+			"R9 on the way to the status line an error is never type-asserted to a module error interface (errors.As finds a wrapped HTTPError, an assertion only a bare one). " +
+			"R10 the message trimmer calls the status-prefix writer that httpError.Error uses under no condition other than status != 0 (writer and trimmer agree for every status).",
 		NotDecided: "the message fixed point as a string fact for arbitrary message texts, and preservation of detail JSON bytes, are not decided.",
 		Technique:  "static analysis: table extraction from the package initialiser, format-verb/provenance analysis of fmt.Errorf arguments, SSA dominance",
 	})
@@ -233,6 +234,7 @@ func runC07(c *core.Ctx) {
 	errorBodyLimitIsConstant(c, "C07.R5")
 	errorBodyTooLargeTestMatchesRead(c, "C07.R5")
 	statusFoundThroughTheErrorChain(c, "C07.R9")
+	trimmerStripsWheneverWriterAdds(c, "C07.R10")
 	returnedResponseBodyOpen(c, "C07.R8")
 	c07Is(c)
 }
